@@ -1,5 +1,6 @@
 import VelaVerif.Model.InPlace
 import VelaVerif.Spec.InPlace
+import VelaVerif.Spec.Arena
 /-!
 # Lemmas about the in-place decision chain (`Model/InPlace.lean`), used by `Props/C12InPlace.lean`
 
@@ -1425,5 +1426,127 @@ theorem readsAt_progOf (g : Graph) (pers : List Nat) (q a : Nat) :
   | none => simp [Pass.empty]
   | some p => rfl
 
+
+/-! ## The operator order of `Spec/Arena.lean` -/
+
+section arena
+open VelaVerif.Arena
+
+/-- the graph description as an arena plan (`Spec/Arena.lean`): one operator per pass, in pass order; sizes and offsets
+    play no role for `born` / `dies` -/
+def planOf (g : Graph) : Plan :=
+  { tensors := g.tens.map fun _ => { size := 0, offset := none, isVariable := false },
+    ops := g.passes.map fun p => { ethosu := false, builtin := 0, inputs := p.pass.reads, outputs := p.pass.outputs },
+    inputs := [], outputs := g.outputs, scratch := none, fast := none, align := 16 }
+
+private def diesStep (t : Nat) (acc : Nat) (x : AOp × Nat) : Nat :=
+  if x.1.inputs.contains t then max acc (x.2 + 1) else acc
+
+theorem foldl_dies_ge (t : Nat) : ∀ (l : List (AOp × Nat)) (b : Nat), b ≤ l.foldl (diesStep t) b := by
+  intro l
+  induction l with
+  | nil => intro b; exact Nat.le_refl _
+  | cons x xs ih =>
+    intro b
+    simp only [List.foldl_cons]
+    refine Nat.le_trans ?_ (ih _)
+    unfold diesStep
+    split <;> omega
+
+theorem foldl_dies_reader (t : Nat) : ∀ (l : List (AOp × Nat)) (b : Nat) (x : AOp × Nat), x ∈ l →
+    x.1.inputs.contains t = true → x.2 + 1 ≤ l.foldl (diesStep t) b := by
+  intro l
+  induction l with
+  | nil => intro b x hx; simp at hx
+  | cons y ys ih =>
+    intro b x hx hr
+    simp only [List.foldl_cons]
+    simp only [List.mem_cons] at hx
+    rcases hx with rfl | hx
+    · refine Nat.le_trans ?_ (foldl_dies_ge t ys _)
+      unfold diesStep
+      rw [if_pos hr]
+      omega
+    · exact ih _ x hx hr
+
+theorem foldl_dies_le (t B : Nat) : ∀ (l : List (AOp × Nat)) (b : Nat), b ≤ B →
+    (∀ x ∈ l, x.1.inputs.contains t = true → x.2 + 1 ≤ B) → l.foldl (diesStep t) b ≤ B := by
+  intro l
+  induction l with
+  | nil => intro b hb _; exact hb
+  | cons y ys ih =>
+    intro b hb hall
+    simp only [List.foldl_cons]
+    apply ih
+    · unfold diesStep
+      split
+      · rename_i hr
+        have := hall y (List.mem_cons_self) hr
+        omega
+      · exact hb
+    · intro x hx hr
+      exact hall x (List.mem_cons_of_mem _ hx) hr
+
+
+theorem planOf_ops_getElem? (g : Graph) (k : Nat) (x : AOp) (h : (planOf g).ops[k]? = some x) :
+    x.inputs = g.R0 k ∧ x.outputs = g.O0 k := by
+  simp only [planOf, List.getElem?_map, Option.map_eq_some_iff] at h
+  obtain ⟨p, hp, rfl⟩ := h
+  simp [Graph.R0, Graph.O0, Graph.passAt, hp]
+
+/-- `Arena.dies` of the plan of a graph description, for a tensor that is no output: `o + 1` when pass `o` is the last
+    reader and every producer comes before `o` -/
+theorem dies_planOf {g : Graph} {a o : Nat} (hout : a ∉ g.outputs) (hr : a ∈ g.R0 o) (hlater : ∀ q, o < q → a ∉ g.R0 q)
+    (hprod : ∀ k, a ∈ g.O0 k → k < o) : dies (planOf g) a = o + 1 := by
+  unfold dies
+  have h1 : ¬ ((planOf g).outputs.contains a = true ∨
+      (((planOf g).tensors[a]?.map (·.isVariable)).getD false) = true) := by
+    rintro (h | h)
+    · exact hout (List.contains_iff_mem.mp h)
+    · simp only [planOf, List.getElem?_map] at h
+      cases hg : g.tens[a]? <;> simp [hg] at h
+  rw [if_neg h1]
+  have hfold : ∀ b, (planOf g).ops.zipIdx.foldl
+      (fun acc (x : AOp × Nat) => if x.1.inputs.contains a then max acc (x.2 + 1) else acc) b =
+      (planOf g).ops.zipIdx.foldl (diesStep a) b := fun b => rfl
+  have hdef : ((planOf g).ops.zipIdx.foldl (fun acc (x : AOp × Nat) =>
+      match x with | (o, k) => if o.inputs.contains a then max acc (k + 1) else acc) (born (planOf g) a)) =
+      (planOf g).ops.zipIdx.foldl (diesStep a) (born (planOf g) a) := rfl
+  rw [hdef]
+  apply Nat.le_antisymm
+  · apply foldl_dies_le
+    · -- born ≤ o + 1
+      unfold born
+      split
+      · rename_i x k hf
+        have hp := List.find?_some hf
+        have hm := List.mem_zipIdx_iff_getElem?.mp (List.mem_of_find?_eq_some hf)
+        obtain ⟨_, ho⟩ := planOf_ops_getElem? g k x hm
+        simp only at hp
+        rw [ho] at hp
+        have := hprod k (List.contains_iff_mem.mp hp)
+        omega
+      · omega
+    · intro x hx hrd
+      have hm := List.mem_zipIdx_iff_getElem?.mp hx
+      obtain ⟨hi, _⟩ := planOf_ops_getElem? g x.2 x.1 hm
+      rw [hi] at hrd
+      have := List.contains_iff_mem.mp hrd
+      by_cases hq : o < x.2
+      · exact absurd this (hlater x.2 hq)
+      · omega
+  · -- the reader `o`
+    have ho : o < g.passes.length := g.lt_of_mem_R0 hr
+    have hget : (planOf g).ops[o]? = some ((planOf g).ops[o]'(by simp [planOf]; exact ho)) := List.getElem?_eq_getElem _
+    have hmem : ((planOf g).ops[o]'(by simp [planOf]; exact ho), o) ∈ (planOf g).ops.zipIdx :=
+      List.mem_zipIdx_iff_getElem?.mpr hget
+    have := foldl_dies_reader a _ (born (planOf g) a) _ hmem (by
+      obtain ⟨hi, _⟩ := planOf_ops_getElem? g o _ hget
+      simp only [hi]
+      exact List.contains_iff_mem.mpr hr)
+    exact this
+
+
+end arena
 
 end VelaVerif.InPlace
